@@ -178,6 +178,28 @@ for _k, _v in _R7_TECH.items():
     EXTRA_TECH[_k] = EXTRA_TECH.get(_k, '') + _v
 
 
+# rules written in rounds 8-10 (DESIGN sections 0.8-0.10)
+_R10_TEXT = {
+    "C01": " Also (TOL1, ZD2, D1): no tolerance branch inside the closed-form model conversions; strict interval analysis proves every divisor of the four chart maps non-zero over the interior; the coords dispatch is partially evaluated per Model member.",
+    "C03": " Also (INV3, RC2, LK1): every inv() of the Transformation family is a genuine matrix inverse; row / column convention typing of matrices handed to the constructors; utils.invert stores no quotient into a buffer typed like an integer argument.",
+    "C04": " Also (LK1, AX1): stacking a list of objects never fills a buffer typed like its first member; np.linalg.norm / np.max / np.min over composite data name their axis.",
+    "C05": " Also (INVS2, AGG1): under compute_inverse=False the inverse letter gets the generator's own expression; the representation's dtype is promoted over all generators, never overwritten by the last one stored.",
+    "C08": " Also (NONNEG1, PAIR1, OWN1, EIGH2): the signature ordering of diagonalize_form reads signed eigenvalues; (W, W^-1) come from an orthonormal source and receive the same updates; CoxeterGroup owns its matrix.",
+    "C09": " Also (DC1, VROW1, RET1, INVMAP1): no view is one copy of a whole caller container; the rebuilt label view has a row per vertex; inplace=False never returns self; no comprehension inverts label -> target rows into singleton lists.",
+    "C10": " Also (RET1, INVMAP1).",
+    "C11": " Also (S1u): astype / change_base_ring send the three data slots through the same operations.",
+    "C12": " Also (LK3, LRU1): caller data is never item-assigned into an untyped (float64) buffer; no lru_cache on functions taking array data.",
+    "C13": " Also (RC2, ORI1, FORM1, LRU1, HOM1 on the C13 rows): convention typing at the constructors; the orientation fix negates one row; one form per computation.",
+    "C14": " Also (C2 through self.__dict__ / setdefault caches).",
+    "C16": " Also (LK3, EIGH2): eigh only under a comparison with the conjugate transpose.",
+    "C17": " Also (LK3).",
+    "C18": " Also (ORI1, NONNEG1, PAIR1, FORM1, EIGH2).",
+    "C20": " Also: unpacking an array iterates its first axis in the shape interpreter (a composite axis there is a ShapeError).",
+}
+for _k, _v in _R10_TEXT.items():
+    EXTRA_TEXT[_k] = EXTRA_TEXT.get(_k, '') + _v
+
+
 def _engine_from_evidence(pid, default):
     path = os.path.join(HERE, "evidence", f"{pid}.json")
     try:
